@@ -22,7 +22,8 @@ def run_case(case):
     ts = svc.TSS[case['ts']]
     n = case['n']
     sts = [0xFF00 if rnd.random() < 0.5 else 0xFF01 for _ in range(n)] if case['mix'] else [case['code']] * n
-    matches = [(make_ds(rnd, k), statuses.Status(sts[k], dm.CFindRSPMessage)) for k in range(n)]
+    empties = set(case.get('empties', ()))      # matches the handler yields with an empty identifier
+    matches = [(pydicom.Dataset() if k in empties else make_ds(rnd, k), statuses.Status(sts[k], dm.CFindRSPMessage)) for k in range(n)]
     query = make_ds(rnd, 999)
     seen = {}
 
@@ -80,12 +81,13 @@ def run_case(case):
     # the query reached the handler unchanged
     if 'query' not in seen or dsutils.encode(seen['query'], True, True) != dsutils.encode(query, True, True):
         return 'the query data set did not reach the handler unchanged'
-    want = [(dsutils.encode(d, True, True), int(s)) for d, s in matches] + [(None, 0)]
-    have = [(None if d is None else dsutils.encode(d, True, True), int(s)) for d, s in got]
+    # an empty identifier travels as "no data set": it reaches the user as None
+    want = [(dsutils.encode(d, True, True) or None, int(s)) for d, s in matches] + [(None, 0)]
+    have = [(None if d is None else (dsutils.encode(d, True, True) or None), int(s)) for d, s in got]
     if have != want:
         return ('user received %d results %r, provider produced %d matches %r then the final response'
                 % (len(have), [(None if d is None else len(d), '%04x' % s) for d, s in have][:6], n,
-                   [(len(d), '%04x' % s) for d, s in want][:6]))
+                   [(None if d is None else len(d), '%04x' % s) for d, s in want][:6]))
     if any(s.is_pending for _, s in got[-1:]):
         return 'the last response yielded is pending'
     return None, sts
@@ -107,8 +109,10 @@ def run_scripted(case):
         script.append(svc.received(dm.CFindRSPMessage, case['pc'], message_id_being_responded_to=case['msgid'], sop_class_uid=sop,
                                    status=case['pending'][k % len(case['pending'])],
                                    data_set=dsutils.encode(ds, ts.is_implicit_VR, ts.is_little_endian)))
+    final_ds = make_ds(rnd, 777) if case.get('final_ds') else None       # a final response may carry an identifier too
     script.append(svc.received(dm.CFindRSPMessage, case['pc'], message_id_being_responded_to=case['msgid'], sop_class_uid=sop,
-                               status=case['final']))
+                               status=case['final'],
+                               data_set=None if final_ds is None else dsutils.encode(final_ds, ts.is_implicit_VR, ts.is_little_endian)))
     ua = svc.MockAssociation(types.SimpleNamespace(), max_pdu_length=16384)
 
     def receive():
@@ -126,7 +130,8 @@ def run_scripted(case):
         return str(e)
     if script:
         return 'iteration ended with %d responses unread' % len(script)
-    want = [(dsutils.encode(d, True, True), case['pending'][k % len(case['pending'])]) for k, d in enumerate(dss)] + [(None, case['final'])]
+    want = [(dsutils.encode(d, True, True), case['pending'][k % len(case['pending'])]) for k, d in enumerate(dss)] + \
+        [(None if final_ds is None else dsutils.encode(final_ds, True, True), case['final'])]
     have = [(None if d is None else dsutils.encode(d, True, True), int(st)) for d, st in got]
     if have != want:
         return 'user yielded %r for %d matches then final %04x' % ([(None if d is None else len(d), '%04x' % st) for d, st in have][:6],
@@ -139,13 +144,14 @@ def run_wrapper(case):
     import threading
     import pydicom
     import pynetdicom2
-    from pynetdicom2 import applicationentity as aem, sopclass as sc, statuses
+    from pynetdicom2 import applicationentity as aem, sopclass as sc, statuses, dsutils
     n = case['n']
     seen = {}
 
     class Srv(aem.AE):
         def on_receive_find(self, context, ds):
             seen['pid'] = str(ds.PatientID)
+            seen['query'] = dsutils.encode(ds, True, True)
 
             def gen():
                 for j in range(n):
@@ -162,7 +168,11 @@ def run_wrapper(case):
 
     def body():
         try:
-            q = pydicom.Dataset(); q.PatientID = 'QUERY%d' % n; q.QueryRetrieveLevel = 'PATIENT'
+            q = pydicom.Dataset(); q.PatientID = 'QUERY%d' % n
+            if n % 2:
+                q.QueryRetrieveLevel = 'PATIENT'        # (even n: the caller's query has no level; it must arrive as it is)
+            box['query_before'] = dsutils.encode(q, True, True)
+            box['q'] = q
             box['got'] = [(None if d is None else (str(d.PatientID), str(d.PatientName)), int(st))
                           for d, st in pynetdicom2.c_find({'aet': 'SRV', 'address': '127.0.0.1', 'port': port}, 'WRAPPER', q)]
         except BaseException as e:  # pylint: disable=broad-except
@@ -180,6 +190,11 @@ def run_wrapper(case):
         return 'c_find() yielded %r, the handler produced %d matches then the final response' % (box.get('got'), n)
     if seen.get('pid') != 'QUERY%d' % n:
         return 'the query did not reach the handler (%r)' % (seen.get('pid'),)
+    if seen.get('query') != box['query_before']:
+        return 'the query data set did not reach the handler unchanged (caller sent %d bytes, handler saw %d)' % (
+            len(box['query_before']), len(seen.get('query') or b''))
+    if dsutils.encode(box['q'], True, True) != box['query_before']:
+        return "c_find() changed the caller's query data set"
     return None
 
 
@@ -213,6 +228,11 @@ def run(chk):
                 seed += 1
                 cases.append({'variant': variant, 'n': n, 'code': code, 'mix': mix, 'ts': seed % 3, 'pc': [1, 3, 255][seed % 3],
                               'maxlen': [16384, 64, 0, 128][seed % 4], 'msgid': [0, 1, 255, 256, 65535][seed % 5], 'seed': seed})
+    for variant in ('find', 'mwl'):
+        for n, empties in ((1, [0]), (2, [1]), (3, [1]), (4, [0, 3]), (5, [2, 3])):
+            seed += 1
+            cases.append({'variant': variant, 'n': n, 'code': 0xFF00, 'mix': True, 'ts': seed % 3, 'pc': 5, 'maxlen': [16384, 64][seed % 2],
+                          'msgid': 7, 'seed': seed, 'empties': empties})
     for _ in range(40 if tier == 'quick' else 10000):
         seed += 1
         cases.append({'variant': rnd.choice(['find', 'mwl']), 'n': rnd.randrange(0, 12), 'code': 0xFF00, 'mix': True,
@@ -240,7 +260,8 @@ def run(chk):
             for n in (0, 1, 3):
                 sseed += 1
                 sc_case = {'variant': variant, 'final': final, 'n': n, 'pending': [[0xFF00], [0xFF01], [0xFF00, 0xFF01]][sseed % 3],
-                           'ts': sseed % 3, 'pc': [1, 3, 255][sseed % 3], 'msgid': [1, 0, 65535][sseed % 3], 'seed': sseed}
+                           'ts': sseed % 3, 'pc': [1, 3, 255][sseed % 3], 'msgid': [1, 0, 65535][sseed % 3], 'seed': sseed,
+                           'final_ds': sseed % 2 == 0}
                 try:
                     r = run_scripted(sc_case)
                 except Exception as e:  # pylint: disable=broad-except
